@@ -5,7 +5,7 @@ use crate::common::*;
 use scrut::escaping::Escaper;
 use scrut::expectation::{Expectation, ExpectationMaker};
 use scrut::rules::registry::RuleRegistry;
-use unicode_categories::UnicodeCategories;
+use crate::generate::unicode_other;
 
 thread_local! {
     static MAKER: ExpectationMaker = ExpectationMaker::new(RuleRegistry::default());
@@ -82,7 +82,7 @@ fn esc_case(prop: &str, mode: char, line: &[u8], stream_tag: &str) -> CaseRec {
     let t = trim(line);
     let valid = std::str::from_utf8(line).ok();
     let bits: String = match valid {
-        Some(s) if !s.is_empty() => s.chars().map(|c| if c.is_other() { '1' } else { '0' }).collect(),
+        Some(s) if !s.is_empty() => s.chars().map(|c| if unicode_other(c) { '1' } else { '0' }).collect(),
         _ => "-".to_string(),
     };
     let op = format!("esc {} {} {}", mode, hex(line), bits);
@@ -115,7 +115,7 @@ fn esc_case(prop: &str, mode: char, line: &[u8], stream_tag: &str) -> CaseRec {
     let line_ok = !t.contains(&b'\n'); // a line after trim_newlines; the property quantifies over these
     // printable
     if line_ok || mode == 'a' {
-        let bad = if mode == 'a' { w.chars().find(|c| !(' '..='~').contains(c)) } else { w.chars().find(|c| c.is_other()) };
+        let bad = if mode == 'a' { w.chars().find(|c| !(' '..='~').contains(c)) } else { w.chars().find(|c| unicode_other(*c)) };
         if let Some(c) = bad {
             fails.push(("C11:unprintable".into(), format!("written text contains U+{:04X}", c as u32)));
         }
@@ -435,7 +435,7 @@ pub fn run(ctx: &Ctx, prop: &str) {
         }
         Some(utf8_case(&bs))
     });
-    ctx.note("esc ops carry the value of the real char::is_other() for every character of the input; the model has no Unicode table".into());
+    ctx.note("esc ops carry the general category Other (regex crate: \\p{C}) for every character of the input; the model has no Unicode table".into());
 }
 
 const EXPR_ALPHA: [&str; 16] = ["\\", "x", "0", "1", "7", "8", "f", "F", "g", "+", "-", "t", "e", "é", " ", "\t"];
